@@ -3,6 +3,7 @@ from .lib.match import *
 
 SELECT = r'^bluetoe::link_layer::link_layer::(try_event_cancelation|defer_ll_control_pdu|handle_ll_control_data|handle_pending_ll_control|handle_received_data|end_event|timeout|start_advertising_impl)$|^bluetoe::link_layer::details::phy_update_request_impl::|^bluetoe::link_layer::details::connection_state_base::plan_next_connection_event$'
 UNITS = lambda u: u in ('w_inst_ll',) or u.startswith('t_link_layer_ll_control') or u.startswith('t_link_layer_ll_phy')
+ALSO = [('C23', ('latency-bounded',))]   # the clamp of the skip count to the pending instant is decided by C23's rule: run here as well
 LL = 'bluetoe::link_layer::link_layer::'
 PH = 'bluetoe::link_layer::details::phy_update_request_impl::'
 META = {
